@@ -9,6 +9,8 @@ import (
 )
 
 func checkC07(c *core.Ctx) {
+	defer sweepC07(c)
+	defer gridC07(c)
 	var targets [][]int
 	if c.Thorough() {
 		targets = enum.Shapes(5, []int{1, 2, 3})
